@@ -12,6 +12,10 @@
 //!      checkpoint_to_disk / load_from_disk / run_cycle / shutdown / re-open on
 //!      a temp dir (current-thread tokio runtime per worker).
 //!
+//!   3. CONTAINER: the shared manager driven through `DynamicContainer::write` / `read`, interleaved with direct
+//!      operations on the manager; some reads run on a second thread while the history thread holds the manager's
+//!      lock (a successful read is an access whatever else holds the lock).
+//!
 //! Oracle: a textbook LRU (`VecDeque`, front = least recent) stepped in
 //! lock-step. After every operation: raw list order (`verif_list_keys`),
 //! `for_each_entry` order, `len`, `is_empty`, `contains`, return values must
@@ -1558,6 +1562,10 @@ enum COp {
     Write(u32),
     /// container.read of the i-th key learned so far
     Read(u32),
+    /// container.read of the i-th key, issued on a second thread while this thread holds the shared manager's lock
+    /// (`true`: exclusive guard, as maintenance does; `false`: shared guard, as a thread inspecting the tracker does);
+    /// the guard is released once the read has gone quiet (it waits for the manager, or it returned)
+    ReadWhileLocked(u32, bool),
     /// container.read of a key that was never written
     ReadMissing(u32),
     /// container.remove of the i-th key
@@ -1579,6 +1587,8 @@ impl COp {
         match self {
             COp::Write(i) => format!("w{i}"),
             COp::Read(i) => format!("r{i}"),
+            COp::ReadWhileLocked(i, true) => format!("B{i}"),
+            COp::ReadWhileLocked(i, false) => format!("b{i}"),
             COp::ReadMissing(i) => format!("m{i}"),
             COp::CRemove(i) => format!("d{i}"),
             COp::LRemove(i) => format!("R{i}"),
@@ -1594,6 +1604,8 @@ impl COp {
         Some(match head {
             "w" => COp::Write(rest.parse().ok()?),
             "r" => COp::Read(rest.parse().ok()?),
+            "B" => COp::ReadWhileLocked(rest.parse().ok()?, true),
+            "b" => COp::ReadWhileLocked(rest.parse().ok()?, false),
             "m" => COp::ReadMissing(rest.parse().ok()?),
             "d" => COp::CRemove(rest.parse().ok()?),
             "R" => COp::LRemove(rest.parse().ok()?),
@@ -1619,14 +1631,113 @@ fn pad16(k: &Key) -> [u8; 16] {
     o
 }
 
-fn open_container(rt: &tokio::runtime::Runtime, root: &Path, lru: &Arc<RwLock<LruManager>>, read_only: bool) -> Result<DynamicContainer, String> {
+fn open_container(rt: &tokio::runtime::Runtime, root: &Path, lru: &Arc<RwLock<LruManager>>, read_only: bool) -> Result<Arc<DynamicContainer>, String> {
     let mut b = DynamicContainer::builder(root.join("store")).lru(lru.clone());
     if read_only {
         b = b.access_mode(AccessMode::ReadOnly);
     }
     let c = b.build().map_err(|e| format!("DynamicContainer build: {e}"))?;
     rt.block_on(c.open()).map_err(|e| format!("DynamicContainer open: {e}"))?;
-    Ok(c)
+    Ok(Arc::new(c))
+}
+
+/// What a read issued on a second thread reports to the thread that holds the manager's lock.
+enum ReaderMsg {
+    /// the thread runs and is about to call `read`
+    Started,
+    /// the read passed one of the container's instrumentation points (between its separately locked steps)
+    Progress,
+    Done(Result<Vec<u8>, String>),
+}
+
+thread_local! {
+    /// set on a reader thread of `read_while_locked`: progress reports go here
+    static READER_TX: std::cell::RefCell<Option<std::sync::mpsc::Sender<ReaderMsg>>> = const { std::cell::RefCell::new(None) };
+}
+
+/// The container's instrumentation points report the progress of reads issued by `read_while_locked` (a no-op on
+/// every other thread).
+fn install_progress_reporter() {
+    cascette_client_storage::verif_hooks::set_controller(Some(Arc::new(|_site: &'static str| {
+        READER_TX.with(|t| {
+            if let Some(tx) = t.borrow().as_ref() {
+                let _ = tx.send(ReaderMsg::Progress);
+            }
+        });
+    })));
+}
+
+/// How long a read must have been quiet (no progress report, no result) before the guard is released.
+const QUIET: std::time::Duration = std::time::Duration::from_millis(8);
+/// Watchdog for the reader thread; its firing is inconclusive.
+const READER_WATCHDOG: std::time::Duration = std::time::Duration::from_secs(30);
+
+enum LockedRead {
+    /// result of the read, and whether it arrived while the guard was still held
+    Done(Result<Vec<u8>, String>, bool),
+    Watchdog(&'static str),
+}
+
+/// `container.read(k16)` on a second thread while THIS thread holds the manager's lock; the guard is dropped once the
+/// read has been quiet for `QUIET` (it waits for the manager) or has returned. Deterministic in what is judged: the
+/// read has returned and the guard is gone when this function returns `Done`.
+fn read_while_locked(c: &Arc<DynamicContainer>, lru: &Arc<RwLock<LruManager>>, k16: [u8; 16], exclusive: bool) -> LockedRead {
+    use std::sync::mpsc::{RecvTimeoutError, channel};
+    let (tx, rx) = channel::<ReaderMsg>();
+    // the guard first: the read below starts while the manager is held
+    let (wguard, rguard) = if exclusive { (Some(lru.write()), None) } else { (None, Some(lru.read())) };
+    if let Some(g) = rguard.as_ref() {
+        // what the holder does with its shared guard: it looks at the tracker
+        let mut n = 0usize;
+        g.for_each_entry(|_| n += 1);
+        let _ = (n, g.len());
+    }
+    let c2 = Arc::clone(c);
+    let spawned = std::thread::Builder::new().spawn(move || {
+        let res = match tokio::runtime::Builder::new_current_thread().enable_all().build() {
+            Ok(rt) => {
+                READER_TX.with(|t| *t.borrow_mut() = Some(tx.clone()));
+                let _ = tx.send(ReaderMsg::Started);
+                let r = std::panic::catch_unwind(std::panic::AssertUnwindSafe(|| c_read(&rt, &c2, &k16)));
+                READER_TX.with(|t| *t.borrow_mut() = None);
+                r.unwrap_or_else(|p| Err(format!("panic: {}", vh::monitor::watchdog::panic_message(&p))))
+            }
+            Err(e) => Err(format!("tokio runtime: {e}")),
+        };
+        let _ = tx.send(ReaderMsg::Done(res));
+    });
+    if spawned.is_err() {
+        return LockedRead::Watchdog("could not spawn the reader thread");
+    }
+    // 1. the reader runs
+    let mut early: Option<Result<Vec<u8>, String>> = None;
+    match rx.recv_timeout(READER_WATCHDOG) {
+        Ok(ReaderMsg::Done(r)) => early = Some(r),
+        Ok(_) => {}
+        Err(_) => return LockedRead::Watchdog("the reader thread did not start"),
+    }
+    // 2. hold the guard until the read is quiet or done
+    while early.is_none() {
+        match rx.recv_timeout(QUIET) {
+            Ok(ReaderMsg::Done(r)) => early = Some(r),
+            Ok(_) => {}
+            Err(RecvTimeoutError::Timeout) => break,
+            Err(RecvTimeoutError::Disconnected) => return LockedRead::Watchdog("the reader thread vanished"),
+        }
+    }
+    drop(wguard);
+    drop(rguard);
+    if let Some(r) = early {
+        return LockedRead::Done(r, true);
+    }
+    // 3. the manager is free: the read completes
+    loop {
+        match rx.recv_timeout(READER_WATCHDOG) {
+            Ok(ReaderMsg::Done(r)) => return LockedRead::Done(r, false),
+            Ok(_) => {}
+            Err(_) => return LockedRead::Watchdog("the read did not return after the manager's lock was released"),
+        }
+    }
 }
 
 fn c_read(rt: &tokio::runtime::Runtime, c: &DynamicContainer, k16: &[u8; 16]) -> Result<Vec<u8>, String> {
@@ -1642,7 +1753,7 @@ struct CHist<'a> {
     cap: usize,
     pseed: u64,
     lru: Arc<RwLock<LruManager>>,
-    c: Option<DynamicContainer>,
+    c: Option<Arc<DynamicContainer>>,
     model: Model,
     /// keys learned so far (9-byte prefixes of the encoding keys the container chose), in order of discovery
     known: Vec<Key>,
@@ -1773,6 +1884,53 @@ impl CHist<'_> {
                     }
                 }
             }
+            COp::ReadWhileLocked(i, exclusive) => {
+                if self.known.is_empty() {
+                    return Ok(());
+                }
+                let k = self.known[*i as usize % self.known.len()];
+                let Some(c) = self.c.as_ref() else { return Err(Stop::Harness("no container".into())) };
+                let tracked = self.model.pos(&k).is_some();
+                let most_recent = self.model.q.back() == Some(&k);
+                let (r, while_held) = match read_while_locked(c, &self.lru, pad16(&k), *exclusive) {
+                    LockedRead::Done(r, h) => (r, h),
+                    LockedRead::Watchdog(why) => return Err(Stop::Harness(format!("read while the manager's lock is held elsewhere: {why} (watchdog)"))),
+                };
+                let mut touched = self.model.clone();
+                let (_, ev) = touched.touch(&k);
+                let class = "manager-locked-by-another-thread-during-the-read";
+                match r {
+                    Ok(_) => {
+                        cnt.add(if *exclusive { "read_ok_while_manager_locked_elsewhere.exclusive_guard" } else { "read_ok_while_manager_locked_elsewhere.shared_guard" }, 1);
+                        if !most_recent {
+                            cnt.add("read_ok_while_manager_locked_elsewhere.of_key_not_most_recent", 1);
+                        }
+                        if !tracked {
+                            cnt.add("read_ok_while_manager_locked_elsewhere.of_object_evicted_from_tracker", 1);
+                        }
+                        cnt.add(if while_held { "read_while_manager_locked_elsewhere.returned_while_lock_held(observation)" } else { "read_while_manager_locked_elsewhere.returned_after_lock_release(observation)" }, 1);
+                        if ev {
+                            self.evictions += 1;
+                        }
+                        self.model = touched;
+                        // a successful read is an access, whoever else held the manager meanwhile
+                        self.state("container.read").map_err(|mut v| {
+                            v.sig = format!("{}|{class}", v.sig);
+                            Stop::Fatal(v)
+                        })?;
+                    }
+                    Err(_) => {
+                        cnt.add("read_err", 1);
+                        self.either("container.read", touched, cnt, "read_err_tracker_unchanged", "read_err_tracker_touched").map_err(|e| match e {
+                            Stop::Fatal(mut v) => {
+                                v.sig = format!("{}|{class}", v.sig);
+                                Stop::Fatal(v)
+                            }
+                            o => o,
+                        })?;
+                    }
+                }
+            }
             COp::ReadMissing(n) => {
                 let k16: [u8; 16] = Rng::derive(self.pseed, 1_000_000 + u64::from(*n)).array::<16>();
                 let k: Key = k16[..9].try_into().unwrap_or(ZERO);
@@ -1859,7 +2017,8 @@ fn gen_container_history(rng: &mut Rng, cap: usize, len: usize) -> Vec<COp> {
     while ops.len() < len {
         ops.push(match rng.below(100) {
             0..=34 => COp::Write(rng.below(u64::from(ids)) as u32),
-            35..=69 => COp::Read(rng.next_u32() % 64),
+            35..=61 => COp::Read(rng.next_u32() % 64),
+            62..=69 => COp::ReadWhileLocked(rng.next_u32() % 64, rng.bool()),
             70..=74 => {
                 missing += 1;
                 COp::ReadMissing(missing)
@@ -2039,7 +2198,7 @@ fn replay(ctx: &Ctx, d: &Value) {
 fn main() {
     let ctx = Ctx::init("C17", "exploration");
     ctx.set_rule(
-        "part 1 (the only part the `exhaustive` flag refers to): EVERY operation sequence of length 1..=5 (quick) / 1..=6 (thorough) over capacities {1,2,3}, keys {00*9, 01*9, 00*8+01, ff*9} and the 14-operation alphabet touch(k) x4, remove(k) x4, evict_tail, evict_to_target(1|2|3 entries x 100 bytes), bump_generation, reset is executed on a fresh LruManager and judged after its last operation against a VecDeque reference LRU (list order, for_each_entry order, len, contains, return values, capacity bound, touch post-condition, structural invariant walker); part 2: seeded random histories of 50..=2000 operations, capacities 1..=64, key pools of capacity+1..3*capacity+2 keys (every 4th pool holds the all-zero key), additionally checkpoint_to_disk / load_from_disk (any existing generation) / run_cycle / shutdown / re-open on a temp dir, judged after EVERY operation. One case = one sequence / one history; non-trivial = it contains an eviction (touch at capacity, evict_tail, evict_to_target > 0, run_cycle eviction) or a reload; distinct by hash of (capacity, keys, operations). Coverage-driven extension of part 2: re-open with ANOTHER capacity (0..96) followed by reloads of checkpoints written with a smaller/larger table (textbook: the most recent `capacity` keys survive; a capacity probe on a fresh manager touches `capacity` new keys), load_from_disk of a missing / damaged file (11 kinds of damage, incl. re-serialized files with broken links) and run_cycle with a damaged newest file (a failed load leaves the tracker unchanged), calls while the data directory is missing, a checkpoint under generation u64::MAX (the next bump wraps), non-checkpoint and non-UTF-8 file names in the directory, entry sizes 0 and >= 2^62 (exact 128-bit reference arithmetic). Part 3: 64 (quick) / 1500 (thorough) histories of 20..90 operations in which the shared LruManager (capacity 1..8) is driven through DynamicContainer::write / read (the two production call sites of touch), interleaved with container remove / re-open and direct remove / evict_tail / evict_to_target / checkpoint+reload, judged against the same reference LRU after every call (a successful write or read is exactly one access of the key under which the object reads back). In the thorough tier only 1 in 16 of the length-6 sequences is hashed into the distinct set (memory bound); observations.exhaustive.sequences_nontrivial is the exact count.",
+        "part 1 (the only part the `exhaustive` flag refers to): EVERY operation sequence of length 1..=5 (quick) / 1..=6 (thorough) over capacities {1,2,3}, keys {00*9, 01*9, 00*8+01, ff*9} and the 14-operation alphabet touch(k) x4, remove(k) x4, evict_tail, evict_to_target(1|2|3 entries x 100 bytes), bump_generation, reset is executed on a fresh LruManager and judged after its last operation against a VecDeque reference LRU (list order, for_each_entry order, len, contains, return values, capacity bound, touch post-condition, structural invariant walker); part 2: seeded random histories of 50..=2000 operations, capacities 1..=64, key pools of capacity+1..3*capacity+2 keys (every 4th pool holds the all-zero key), additionally checkpoint_to_disk / load_from_disk (any existing generation) / run_cycle / shutdown / re-open on a temp dir, judged after EVERY operation. One case = one sequence / one history; non-trivial = it contains an eviction (touch at capacity, evict_tail, evict_to_target > 0, run_cycle eviction) or a reload; distinct by hash of (capacity, keys, operations). Coverage-driven extension of part 2: re-open with ANOTHER capacity (0..96) followed by reloads of checkpoints written with a smaller/larger table (textbook: the most recent `capacity` keys survive; a capacity probe on a fresh manager touches `capacity` new keys), load_from_disk of a missing / damaged file (11 kinds of damage, incl. re-serialized files with broken links) and run_cycle with a damaged newest file (a failed load leaves the tracker unchanged), calls while the data directory is missing, a checkpoint under generation u64::MAX (the next bump wraps), non-checkpoint and non-UTF-8 file names in the directory, entry sizes 0 and >= 2^62 (exact 128-bit reference arithmetic). Part 3: 64 (quick) / 1500 (thorough) histories of 20..90 operations in which the shared LruManager (capacity 1..8) is driven through DynamicContainer::write / read (the two production call sites of touch), interleaved with container remove / re-open and direct remove / evict_tail / evict_to_target / checkpoint+reload, judged against the same reference LRU after every call (a successful write or read is exactly one access of the key under which the object reads back); about 1 in 12 operations is a read issued on a second thread while the history thread holds the shared manager's lock (shared or exclusive guard, released once the read has gone quiet or returned; watchdog = inconclusive): a successful read is an access whoever else held the manager meanwhile. In the thorough tier only 1 in 16 of the length-6 sequences is hashed into the distinct set (memory bound); observations.exhaustive.sequences_nontrivial is the exact count.",
     );
     ctx.assume("the VecDeque reference LRU in the harness is the specification of 'textbook LRU'");
     ctx.assume("verif_list_keys / verif_check_invariants (feature verif-hooks) report the manager's internal list faithfully");
@@ -2050,6 +2209,7 @@ fn main() {
     std::panic::set_hook(Box::new(|_| {}));
 
     if let Some(d) = ctx.replay_detail() {
+        install_progress_reporter();
         replay(&ctx, &d);
         ctx.finish();
     }
@@ -2057,6 +2217,7 @@ fn main() {
     let threads = 16usize;
     run_exhaustive(&ctx, threads);
     run_random(&ctx, threads);
+    install_progress_reporter();
     run_container(&ctx, threads);
 
     // minimum evidence: the situations the property is about must have been reached
@@ -2092,6 +2253,9 @@ fn main() {
         "container.read_new_key_at_capacity",
         "container.tracker_checkpoint_and_reload",
         "container.write_refused_by_read_only_container_tracker_judged_unchanged",
+        "container.read_ok_while_manager_locked_elsewhere.exclusive_guard",
+        "container.read_ok_while_manager_locked_elsewhere.shared_guard",
+        "container.read_ok_while_manager_locked_elsewhere.of_key_not_most_recent",
     ];
     for k in need {
         if ctx.get_obs(k) == 0 {
